@@ -237,7 +237,7 @@ func planC11(tier string, root *simcore.RNG) *plan {
 	pl := &plan{prop: "C11", level: "exploration", batch: 24}
 	n := 480
 	if tier == "thorough" {
-		n = 6000
+		n = 30000
 	}
 	if tier == "replay" {
 		n = 0
